@@ -123,7 +123,7 @@ Section Obj.
     NoDup (map fst st) ->
     (forall k x, In (k, x) st -> k <> sname s -> entry_ok k x) ->
     match alookup (sname s) st with
-    | Some (PJ j) => if isnow then False else jscope j = true
+    | Some (PJ j) => isnow = false /\ jscope j = true
     | Some x => entry_ok (sname s) x /\ pval_has_custom x = false
     | None => True
     end ->
@@ -142,7 +142,7 @@ Section Obj.
         - apply ustr_eqb_eq in E. subst k. rewrite (alookup_In_nodup _ _ _ ND Hin) in Ex. inversion Ex; subst. auto.
         - apply Hoth; auto. apply ustr_eqb_neq. auto. }
       destruct raw as [j| | | |].
-      + destruct isnow; [contradiction|].
+      + destruct Hraw as [-> Hraw].
         destruct (clean_kind vr w rc rp ro (skind s) false false j) as [[v hc]| |] eqn:Ec; try discriminate.
         inv_bind H. inversion Hb; subst. clear Hb Ha.
         destruct (Hsk j v hc' Hraw Ec) as [-> [m Hm]].
@@ -206,7 +206,7 @@ Section Obj.
       assert (Put : forall v isn,
                  st = aset n v setting1 -> isnow = isn ->
                  match v with
-                 | PJ j => if isn then False else jscope j = true
+                 | PJ j => isn = false /\ jscope j = true
                  | x => entry_ok n x /\ pval_has_custom x = false
                  end ->
                  hc' = false /\ Inv setting' /\
